@@ -1,6 +1,8 @@
 import GoBk.Model.Ecdsa
 import GoBk.Proofs.GroupOrder
+import GoBk.Proofs.CurveDef
 import GoBk.Proofs.BytesLemmas
+import GoBk.Spec.Sec1
 /-
   Lemmas for C01 (API level) and C05: constants, `moduloReduce`, the format byte of
   `ParsePubKey`, `decompressPoint = Spec.liftX`, a closed form of `parsePubKey`.
@@ -63,10 +65,11 @@ theorem smul_moduloReduce (k : Bytes) {a : Pt} (ha : valid a = true) :
   rw [← smul_mod_N _ ha, beNat_moduloReduce, smul_mod_N _ ha]
 
 theorem scalarMult_eq (k : Bytes) {a : Pt} (ha : valid a = true) :
-    Curve.scalarMult a k = smul (beNat k) a := smul_moduloReduce k ha
+    Curve.scalarMult a k = smul (beNat k) a := by
+  rw [Curve.scalarMult_def]; exact smul_moduloReduce k ha
 
-theorem scalarBaseMult_eq (k : Bytes) : Curve.scalarBaseMult k = smul (beNat k) G :=
-  smul_moduloReduce k valid_G
+theorem scalarBaseMult_eq (k : Bytes) : Curve.scalarBaseMult k = smul (beNat k) G := by
+  rw [Curve.scalarBaseMult_def]; exact smul_moduloReduce k valid_G
 
 theorem scalarMult_natBE (n : Nat) {a : Pt} (ha : valid a = true) :
     Curve.scalarMult a (natBE n) = smul n a := by
@@ -74,5 +77,214 @@ theorem scalarMult_natBE (n : Nat) {a : Pt} (ha : valid a = true) :
 
 theorem scalarBaseMult_natBE (n : Nat) : Curve.scalarBaseMult (natBE n) = smul n G := by
   rw [scalarBaseMult_eq, beNat_natBE]
+
+/-! ### the format byte of `ParsePubKey` -/
+
+theorem forall_uint8 (p : UInt8 → Prop) (h : ∀ n, n < 256 → p (UInt8.ofNat n)) : ∀ f, p f := by
+  intro f
+  have := h f.toNat f.toNat_lt
+  simpa using this
+
+theorem fmt_facts : ∀ f : UInt8,
+    ((f &&& (~~~ (0x1 : UInt8))).toNat = 4 ↔ (f = 4 ∨ f = 5)) ∧
+    ((f &&& (~~~ (0x1 : UInt8))).toNat = 6 ↔ (f = 6 ∨ f = 7)) ∧
+    ((f &&& (~~~ (0x1 : UInt8))).toNat = 2 ↔ (f = 2 ∨ f = 3)) ∧
+    (((f &&& 0x1) == 0x1) = (f.toNat % 2 == 1)) ∧
+    (f = 4 ↔ ((f &&& (~~~ (0x1 : UInt8))).toNat = 4 ∧ (f.toNat % 2 == 1) = false)) := by
+  apply forall_uint8
+  decide +kernel
+
+theorem parsePubKey_nil : Ecdsa.parsePubKey [] = none := rfl
+
+theorem parsePubKey_cons (f : UInt8) (rest : Bytes) :
+    Ecdsa.parsePubKey (f :: rest) =
+      if rest.length = 64 then
+        if (f = 4 ∨ ((f = 6 ∨ f = 7) ∧
+              (f.toNat % 2 == 1) = (beNat (rest.drop 32) % 2 == 1))) ∧
+            beNat (rest.take 32) < P ∧ beNat (rest.drop 32) < P ∧
+            onCurve (beNat (rest.take 32), beNat (rest.drop 32)) = true
+        then some (beNat (rest.take 32), beNat (rest.drop 32)) else none
+      else if rest.length = 32 then
+        if (f = 2 ∨ f = 3) ∧ beNat rest < P then
+          (Ecdsa.decompressPoint (beNat rest) (f.toNat % 2 == 1)).map (fun y => (beNat rest, y))
+        else none
+      else none := by
+  obtain ⟨h4, h6, h2, hbit, h4'⟩ := fmt_facts f
+  unfold Ecdsa.parsePubKey
+  simp only [List.isEmpty_cons, Bool.false_eq_true, if_false, List.headD_cons, List.length_cons,
+    Gen.k_pubKeyBytesLenUncompressed, Gen.k_pubKeyBytesLenCompressed, Gen.k_pubkeyUncompressed,
+    Gen.k_pubkeyHybrid, Gen.k_pubkeyCompressed, List.drop_succ_cons, List.drop_zero, hbit, Pp_eq,
+    Curve.isOnCurve]
+  simp only [h4', ← h6, ← h2]
+  clear h4 h4' h6 h2 hbit
+  generalize (f &&& ~~~1).toNat = fmt
+  generalize (f.toNat % 2 == 1) = fb
+  by_cases hl : rest.length = 64
+  · simp only [hl, if_true]
+    generalize beNat (rest.take 32) = x
+    generalize beNat (rest.drop 32) = y
+    generalize (y % 2 == 1) = yb
+    by_cases c4 : fmt = 4 <;> by_cases c6 : fmt = 6 <;> by_cases cx : x < P <;> by_cases cy : y < P <;>
+      cases hc : onCurve (x, y) <;> cases fb <;> cases yb <;> simp [*]
+  · have hl' : ¬ (rest.length + 1 = 65) := by omega
+    simp only [hl, hl', if_false, beq_iff_eq]
+    by_cases hl2 : rest.length = 32
+    · have ht : rest.take 32 = rest := List.take_of_length_le (by omega)
+      simp only [hl2, if_true, ht]
+      generalize beNat rest = x
+      by_cases c2 : fmt = 2 <;> by_cases cx : x < P <;> simp [*]
+      · rw [if_neg (by omega)]; cases Ecdsa.decompressPoint x fb <;> rfl
+    · have hl2' : ¬ (rest.length + 1 = 33) := by omega
+      simp only [hl2, hl2', if_false]
+
+theorem negY_sq (y0 : Nat) (hy0 : y0 < P) : (P - y0) % P * ((P - y0) % P) % P = y0 * y0 % P := by
+  rw [sq_eq_iff, ← neg_sqrt_val hy0, ZMod.natCast_zmod_val]
+  exact Or.inr rfl
+
+theorem decompress_eq_liftX (x : Nat) (hx : x < P) (odd : Bool) :
+    Ecdsa.decompressPoint x odd = liftX x odd := by
+  unfold Ecdsa.decompressPoint liftX
+  have h1 : x % 2 ^ 256 % P = x := by
+    rw [Nat.mod_eq_of_lt (Nat.lt_trans hx P_lt_two_pow), Nat.mod_eq_of_lt hx]
+  have h2 : (x * x % P * x + 7) % P = (x * x * x + B) % P := by
+    show _ = (x * x * x + 7) % P
+    rw [Nat.add_mod, Nat.mod_mul_mod]
+    rw [← Nat.add_mod]
+  simp only [Pp_eq, h1, h2, if_neg (Nat.not_le.2 hx)]
+  generalize (x * x * x + B) % P = c
+  have hy0 : sqrtCand c < P := sqrtCand_lt c
+  generalize sqrtCand c = y0 at *
+  have hn := negY_sq y0 hy0
+  by_cases hp : (y0 % 2 == 1) = odd
+  · have e1 : (odd != (y0 % 2 == 1)) = false := by subst hp; simp
+    simp [hp]
+  · have e1 : (odd != (y0 % 2 == 1)) = true := by
+      cases odd <;> cases h : (y0 % 2 == 1) <;> simp_all
+    have e2 : ((y0 % 2 == 1) == odd) = false := by
+      cases odd <;> cases h : (y0 % 2 == 1) <;> simp_all
+    simp only [e1, e2, if_true, hn, Bool.false_eq_true, if_false]
+    by_cases hs : y0 * y0 % P = c
+    · simp [hs]
+      cases odd <;> cases h : ((P - y0) % P % 2 == 1) <;> simp_all
+    · simp [hs]
+
+theorem decompress_spec (x : Nat) (hx : x < P) (ybit : Bool) (y : Nat) :
+    Ecdsa.decompressPoint x ybit = some y ↔
+      y < P ∧ onCurve (x, y) = true ∧ (y % 2 == 1) = ybit := by
+  rw [decompress_eq_liftX x hx, liftX_spec]
+  exact ⟨fun h => h.2, fun h => ⟨hx, h⟩⟩
+
+/-! ### fixed-width fields -/
+
+theorem lt_pow_of_lt_P {n : Nat} (h : n < P) : n < 256 ^ 32 := Nat.lt_trans h P_lt_pow
+
+theorem rest_split (rest : Bytes) (h : rest.length = 64) :
+    rest = natBEpad 32 (beNat (rest.take 32)) ++ natBEpad 32 (beNat (rest.drop 32)) := by
+  have h1 : (rest.take 32).length = 32 := by rw [List.length_take]; omega
+  have h2 : (rest.drop 32).length = 32 := by rw [List.length_drop]; omega
+  have e1 := natBEpad_beNat (rest.take 32)
+  have e2 := natBEpad_beNat (rest.drop 32)
+  rw [h1] at e1; rw [h2] at e2
+  rw [e1, e2, List.take_append_drop]
+
+theorem pad_pair (x y : Nat) (hx : x < 256 ^ 32) (hy : y < 256 ^ 32) :
+    (natBEpad 32 x ++ natBEpad 32 y).length = 64 ∧
+    beNat ((natBEpad 32 x ++ natBEpad 32 y).take 32) = x ∧
+    beNat ((natBEpad 32 x ++ natBEpad 32 y).drop 32) = y := by
+  refine ⟨?_, ?_, ?_⟩
+  · rw [List.length_append, natBEpad_length _ _ hx, natBEpad_length _ _ hy]
+  · rw [take_natBEpad_append _ _ _ hx, beNat_natBEpad]
+  · rw [drop_natBEpad_append _ _ _ hx, beNat_natBEpad]
+
+theorem parity_odd {y : Nat} (h : y % 2 = 1) : parity y = 1 := by simp [parity, h]
+theorem parity_even {y : Nat} (h : ¬ y % 2 = 1) : parity y = 0 := by simp [parity, h]
+
+/-- the characterisation of `ParsePubKey` by the SEC1 language -/
+theorem parsePubKey_iff_sec1 (b : Bytes) (q : Pt) : Ecdsa.parsePubKey b = some q ↔ sec1 b q := by
+  obtain ⟨qx, qy⟩ := q
+  cases b with
+  | nil =>
+    rw [parsePubKey_nil]
+    constructor
+    · intro h; cases h
+    · rintro ⟨_, _, _, h | h | h⟩ <;> simp at h
+  | cons f rest =>
+    rw [parsePubKey_cons]
+    constructor
+    · intro h
+      split at h
+      · rename_i hl
+        split at h
+        · rename_i hc
+          obtain ⟨hf, hx, hy, hon⟩ := hc
+          have hs := rest_split rest hl
+          simp only [Option.some.injEq, Prod.mk.injEq] at h
+          obtain ⟨rfl, rfl⟩ := h
+          refine ⟨hx, hy, hon, ?_⟩
+          rcases hf with rfl | ⟨rfl | rfl, hp⟩
+          · left; simp only [List.cons_append, List.nil_append]; rw [← hs]
+          · right; left
+            have : ¬ beNat (rest.drop 32) % 2 = 1 := by
+              intro e; rw [e] at hp; revert hp; decide
+            rw [parity_even this]
+            simp only [List.cons_append, List.nil_append]; rw [← hs]; rfl
+          · right; left
+            have : beNat (rest.drop 32) % 2 = 1 := by
+              have : (beNat (rest.drop 32) % 2 == 1) = true := by rw [← hp]; decide
+              simpa using this
+            rw [parity_odd this]
+            simp only [List.cons_append, List.nil_append]; rw [← hs]; rfl
+        · cases h
+      · split at h
+        · rename_i hl
+          split at h
+          · rename_i hc
+            obtain ⟨hf, hx⟩ := hc
+            cases hd : Ecdsa.decompressPoint (beNat rest) (f.toNat % 2 == 1) with
+            | none => rw [hd] at h; cases h
+            | some y =>
+              rw [hd] at h
+              simp only [Option.map_some, Option.some.injEq, Prod.mk.injEq] at h
+              obtain ⟨rfl, rfl⟩ := h
+              obtain ⟨hy, hon, hpar⟩ := (decompress_spec _ hx _ _).1 hd
+              refine ⟨hx, hy, hon, Or.inr (Or.inr ?_)⟩
+              have hr := natBEpad_beNat rest
+              rw [hl] at hr
+              rcases hf with rfl | rfl
+              · have : ¬ y % 2 = 1 := by
+                  intro e; rw [e] at hpar; revert hpar; decide
+                rw [parity_even this, hr]; rfl
+              · have : y % 2 = 1 := by
+                  have : (y % 2 == 1) = true := by rw [hpar]; decide
+                  simpa using this
+                rw [parity_odd this, hr]; rfl
+          · cases h
+        · cases h
+    · rintro ⟨hx, hy, hon, h | h | h⟩
+      · simp only [List.cons_append, List.nil_append, List.cons.injEq] at h
+        obtain ⟨rfl, rfl⟩ := h
+        obtain ⟨hl, e1, e2⟩ := pad_pair qx qy (lt_pow_of_lt_P hx) (lt_pow_of_lt_P hy)
+        rw [if_pos hl, e1, e2, if_pos ⟨Or.inl rfl, hx, hy, hon⟩]
+      · simp only [List.cons_append, List.nil_append, List.cons.injEq] at h
+        obtain ⟨rfl, rfl⟩ := h
+        obtain ⟨hl, e1, e2⟩ := pad_pair qx qy (lt_pow_of_lt_P hx) (lt_pow_of_lt_P hy)
+        rw [if_pos hl, e1, e2, if_pos]
+        refine ⟨Or.inr ?_, hx, hy, hon⟩
+        by_cases hp : qy % 2 = 1
+        · rw [parity_odd hp]; simp [hp]
+        · rw [parity_even hp]; simp [hp]
+      · simp only [List.singleton_append, List.cons.injEq] at h
+        obtain ⟨rfl, rfl⟩ := h
+        have hl : (natBEpad 32 qx).length = 32 := natBEpad_length _ _ (lt_pow_of_lt_P hx)
+        rw [if_neg (by omega), if_pos hl, beNat_natBEpad]
+        by_cases hp : qy % 2 = 1
+        · rw [parity_odd hp, if_pos ⟨Or.inr (by decide), hx⟩]
+          have : Ecdsa.decompressPoint qx (((2:UInt8) + 1).toNat % 2 == 1) = some qy :=
+            (decompress_spec _ hx _ _).2 ⟨hy, hon, by simp [hp]⟩
+          rw [this]; rfl
+        · rw [parity_even hp, if_pos ⟨Or.inl (by decide), hx⟩]
+          have : Ecdsa.decompressPoint qx (((2:UInt8) + 0).toNat % 2 == 1) = some qy :=
+            (decompress_spec _ hx _ _).2 ⟨hy, hon, by simp [hp]⟩
+          rw [this]; rfl
 
 end GoBk.Proofs.KeyBytes
